@@ -521,8 +521,11 @@ def run_check(pid, tier="quick", seed=0, replay=None, out=sys.stdout):
 
     # oracle failures on the real code: the property is violated, whatever the model says
     reported = set()
+    shrink_deadline = time.time() + (60 if tier == "quick" else 240)   # total budget for minimising failures
     for c, replies, omsg in oracle_fail[:50]:
-        small = shrink_case(mod, c, impl_fails)
+        if omsg.split(":")[0] in reported and match_known(mod, c) is None and not getattr(mod, "KNOWN", None):
+            continue                      # same kind of failure already reported with a minimised replay
+        small = shrink_case(mod, c, impl_fails, budget_s=max(0.5, min(20.0, shrink_deadline - time.time())))
         replies2, omsg2 = _impl_one(mod, small)
         if omsg2 is None:
             small, replies2, omsg2 = c, replies, omsg
